@@ -52,9 +52,11 @@ SeqsUpTo(S, n) == IF n = 0 THEN {<<>>} ELSE SeqsUpTo(S, n - 1) \cup {Append(s, x
 
 (* who must witness *)
 Required(m, named) == IF m \in OperatorMethods THEN "op" ELSE named
+(* "zero" is the all-zero address: nobody can sign for it and it is no contract - it is the value CallingContext() has when
+   there is no caller, so a witness check that forgets the "there is a caller" test accepts it at top level *)
 NamedFor(m) == IF m \in OperatorMethods THEN {"-"}
-               ELSE IF m \in SelfMethods THEN {"val"}
-               ELSE IF m \in CtxMethods THEN {"owner", "C1"} ELSE {"owner"}
+               ELSE IF m \in SelfMethods THEN {"val", "zero"}
+               ELSE IF m \in CtxMethods THEN {"owner", "C1", "zero"} ELSE {"owner", "zero"}
 
 (* native.CheckWitness: signer of the transaction, or the immediate caller; ctx lists the calling contracts, outermost first *)
 CheckWitness(a, signers, ctx) == a \in signers \/ (ctx # <<>> /\ ctx[Len(ctx)] = a)
@@ -63,7 +65,7 @@ VARIABLES call, verdict, changed
 vars == <<call, verdict, changed>>
 
 Calls == {[m |-> m, named |-> n, signers |-> s, ctx |-> c, due |-> d] :
-            m \in Methods, n \in Actors \cup {"-", "C1"}, s \in SUBSET Actors, c \in SeqsUpTo(Contracts, CtxDepth), d \in BOOLEAN}
+            m \in Methods, n \in Actors \cup {"-", "C1", "zero"}, s \in SUBSET Actors, c \in SeqsUpTo(Contracts, CtxDepth), d \in BOOLEAN}
 WellFormed(c) == /\ c.named \in NamedFor(c.m)
                  /\ (c.due => c.m = "nm.commitDpos")
                  /\ (c.named # "C1" => Len(c.ctx) <= 1 /\ (c.ctx # <<>> => c.ctx = <<"C2">>))   \* nesting only where it matters
